@@ -122,6 +122,20 @@ def ob_resample(ctx, D, a, which):
         ctx.true(new.extent() < g.extent() + t, "resample: extent grows by less than one spacing")
 
 
+def ob_resample_chain(ctx, D, a, sizes, levels):
+    """resample() of a grid whose internal size is fractional (the result of downsample on a size not divisible by 2^levels)
+    covers the extent of that grid, as for any other grid."""
+    g, P = sym_grid(ctx, "g", D, ctx.seed, 0, sizes=sizes, align_corners=a)
+    h = g.downsample(levels)
+    new = h.resample(g.spacing())
+    _same_frame(ctx, new, h, f"downsample({levels}).resample(original spacing)")
+    ctx.eq(new.spacing(), g.spacing(), "resample after downsample: spacing is the requested one")
+    ctx.true(new.extent() >= h.extent(), "resample after downsample: extent of the downsampled grid is covered")
+    ctx.true(new.extent() < h.extent() + g.spacing(), "resample after downsample: extent grows by less than one spacing")
+    again = new.resample(h.spacing())
+    ctx.true(again.extent() >= new.extent(), "resample of a resampled grid: extent does not shrink")
+
+
 def ob_pyramid(ctx, D, a, sizes, levels, dims=None, min_size=0):
     g, P = sym_grid(ctx, "g", D, ctx.seed, 0, sizes=sizes, align_corners=a)
     kw = dict(dims=dims) if dims else {}
@@ -268,6 +282,7 @@ def obligations(tier: str, seed: int):
             obs.append((f"down-clamped-D{D}-ac{int(a)}", ob_down_clamped, dict(D=D, a=a)))
             for which in ("tensor", "min", "max"):
                 obs.append((f"resample-{which}-D{D}-ac{int(a)}", ob_resample, dict(D=D, a=a, which=which)))
+            obs.append((f"resample-chain-D{D}-ac{int(a)}", ob_resample_chain, dict(D=D, a=a, sizes=(9, 13, 7)[:D], levels=2)))
             pyr_sizes = {2: [(9, 17), (10, 7), (5, 6)], 3: [(9, 5, 17), (8, 7, 5)]}[D]
             if tier == "thorough":
                 pyr_sizes = {2: [(9, 17), (10, 7), (5, 6), (33, 12), (16, 16), (11, 13)], 3: [(9, 5, 17), (8, 7, 5), (12, 9, 6), (17, 17, 9)]}[D]
